@@ -97,7 +97,8 @@ def run_case(spec, ctx):
     params = build.params_points(prows)
     inner_transform = any(n["t"] in ("union", "cut", "isect", "product") and
                           rg.has(n, lambda m: m["t"] in ("translate", "rotate")) for n in rg.walk(I))
-    with ctx.lib("bounding_box", feature=top + ("+transform" if inner_transform else "") + (f"|k{min(k, 2)}" if k else "")):
+    bfeat = top + ("+transform" if inner_transform else "") + (f"|k{min(k, 2)}" if k else "")
+    with ctx.lib("bounding_box", feature=bfeat):
         with warnings.catch_warnings():
             warnings.simplefilter("ignore")
             box = D.bounding_box(params)
@@ -116,7 +117,7 @@ def run_case(spec, ctx):
         if not per_row:
             b = b[0]
     else:
-        ctx.violation("box-form", top, f"bounding_box has shape {b.shape} for dim={dim}, k={k}")
+        ctx.violation("box-form", bfeat, f"bounding_box has shape {b.shape} for dim={dim}, k={k}")
         return None
     if not np.all(np.isfinite(b)):
         ctx.violation("box-nonfinite", top, f"box {b.tolist()}")
